@@ -39,7 +39,8 @@ func guarded(f func()) string {
 }
 
 type sweepStats struct {
-	n, nok, ncalls, nargcalls int
+	n, nok, ncalls, nargcalls, npartial int
+	partial                             bool
 	bad            []any
 }
 
@@ -60,11 +61,28 @@ func parseAndTouch(st *sweepStats, rd Reader, in []byte, a Args, what string) {
 		st.add(what, "parser", msg)
 		return
 	}
-	if !o.OK || o.Val == nil {
+	if o.Val == nil {
 		return
 	}
 	v := reflect.ValueOf(o.Val)
 	if v.Kind() == reflect.Pointer && v.IsNil() {
+		return
+	}
+	if !o.OK {
+		// the value a parser hands back TOGETHER WITH an error (C20): only when the sweep asks for it, argument-free methods only
+		if st.partial {
+			st.npartial++
+			for _, mo := range callAllMethods(v) {
+				st.ncalls++
+				if mo.Panicked {
+					st.add(what, "partial method "+mo.Method, mo.Msg)
+				} else if mo.Hung {
+					st.add(what, "partial method "+mo.Method, "hang")
+				} else if mo.IsVerify && mo.VerifySuccess {
+					st.add(what, "partial verify "+mo.Method, "verification succeeded on a value returned with an error")
+				}
+			}
+		}
 		return
 	}
 	st.nok++
@@ -93,7 +111,7 @@ func (st *sweepStats) res() Res {
 	if st.bad == nil {
 		st.bad = []any{}
 	}
-	return Res{"n": st.n, "nok": st.nok, "ncalls": st.ncalls, "nargcalls": st.nargcalls, "bad": st.bad}
+	return Res{"n": st.n, "nok": st.nok, "ncalls": st.ncalls, "nargcalls": st.nargcalls, "npartial": st.npartial, "bad": st.bad}
 }
 
 type codeFunc func(code int, in []byte)
@@ -146,7 +164,7 @@ func init() {
 			return Res{"unknown_fn": true}
 		}
 		base := a.Bytes("in")
-		st := &sweepStats{}
+		st := &sweepStats{partial: a.Bool("partial")}
 		parseAndTouch(st, rd, append([]byte{}, base...), a, "base")
 		step := a.Int("step")
 		if step < 1 {
